@@ -1041,6 +1041,9 @@ def history_scripts(ck, hbin, r, tier):
     return out
 
 
+NEST_COMBOS = [(nf, md) for nf in ("cm2", "cm3", "cm2", "cm3n") for md in ("same", "thread")]
+
+
 def nest_scripts(ck, hbin, r, tier):
     """re-entrancy: the validity checker, at its k-th question of an (outer) checkMotion call, runs a complete nested
     checkMotion (either form) of ANOTHER motion on the same SpaceInformation -- in the same thread or in a second, joined
@@ -1063,6 +1066,7 @@ def nest_scripts(ck, hbin, r, tier):
             out.append((tag, pre, None))
             continue
         lines = [header(cfg)]
+        combo = {"cm2": r.below(8), "cm3": r.below(8)}
         for p, ((a, b), (c, d)) in enumerate(pairs):
             kvo, kvn = kvline(o[1 + 2 * p]), kvline(o[2 + 2 * p])
             n, nn = int(kvo["n"]), int(kvn["n"])
@@ -1082,8 +1086,9 @@ def nest_scripts(ck, hbin, r, tier):
                     # asks when all are valid, one beyond it (the nested call then never runs)
                     for k in sorted(set([1, 2, r.range(1, max(n, 1)), n, n + 2]))[:(5 if tier == "thorough" else 3)] \
                             if okind == "none" else [r.range(1, 3)]:
-                        nform = r.choice(["cm2", "cm3", "cm3", "cm3n"])
-                        mode = r.choice(["same", "thread"])
+                        # every (outer form, nested form, same thread / second thread) combination, round-robin
+                        combo[oform] += 1
+                        nform, mode = NEST_COMBOS[(combo[oform] + (0 if oform == "cm2" else 3)) % len(NEST_COMBOS)]
                         ck.count("nest: outer %s, nested %s, %s" % (oform, nform, mode))
                         lines.append("invalid idx" + "".join(" %d" % j for j in sorted(oinv)))
                         if hint:
